@@ -22,7 +22,8 @@ from vlib.core import Result, assert_in_tree
 assert_in_tree(memoing)
 
 PID = "C21"
-RULE = ("cases: 1-5 queue operations (memo of 1-400 code points through memoit/rend with a small gram size, or a raw gram "
+RULE = ("cases: transport (a Memoer subclass with a scripted send, or the real udp PeerMemoer on a scripted datagram socket "
+        "whose sendto raises EAGAIN / EWOULDBLOCK / ENOBUFS / ENOMEM for would-block) x 1-5 queue operations (memo of 1-400 code points through memoit/rend with a small gram size, or a raw gram "
         "through gramit) to 1-3 destinations, interleaved with service calls (serviceTxGramsOnce, serviceTxGrams, "
         "serviceAllTxOnce, serviceAllTx, serviceAll), and a script of per-send-call outcomes: accept k bytes (k = 0 .. len) or "
         "raise a destination-unreachable errno; non-trivial = the script produced a zero-byte accept on a fresh gram and a "
@@ -52,31 +53,33 @@ class LogDeque(collections.deque):
         super().append(x)
 
 
-class ScriptMemoer(memoing.Memoer):
-    def __init__(self, script, r, **kwa):
+class Model:
+    """Byte-exact model of the transmit tier; offer() is called for every attempt to hand bytes to the transport."""
+
+    def __init__(self, script, r):
         self.queued = []              # (gram bytes, dst) in queue order
         self.script = list(script)
         self.r = r
         self.head = 0                 # index into queued of the gram the model expects to be in transmission
         self.remaining = None         # unsent bytes of that gram (None = not started)
-        self.sent = []                # completed (index, dst)
+        self.sent = []
         self.dropped = []
         self.calls = 0
         self.zero_fresh = False
         self.partial = False
         self.broken = False
-        super().__init__(txgs=LogDeque(self.queued), **kwa)
-        self.opened = True
 
-    def send(self, gram, dst, *, echoic=False):
+    def offer(self, gram, dst):
+        """Returns the outcome token for this send call: ["n", k] accept k bytes, ["err", errno-name], after checking
+        that exactly the expected bytes are offered to the expected destination."""
         self.calls += 1
         if self.broken:
-            return len(gram)
+            return ["n", len(gram)]
         if self.head >= len(self.queued):
             self.r.fail("C21/send-with-nothing-queued", "send(%r..., %r) called although every queued gram was already sent "
                         "or dropped (duplicate transmission)" % (bytes(gram[:24]), dst))
             self.broken = True
-            return len(gram)
+            return ["n", len(gram)]
         egram, edst = self.queued[self.head]
         fresh = self.remaining is None
         rem = egram if fresh else self.remaining
@@ -86,17 +89,14 @@ class ScriptMemoer(memoing.Memoer):
                         "send call %d offered %d bytes to %r, the model expects the %s %d bytes of queued gram #%d to %r" % (
                             self.calls, len(gram), dst, "whole" if fresh else "remaining", len(rem), self.head, edst))
             self.broken = True
-            return len(gram)
+            return ["n", len(gram)]
         tok = self.script.pop(0) if self.script else ["all"]
         if tok[0] == "err":
             self.dropped.append(self.head)
             self.head += 1
             self.remaining = None
-            raise OSError(getattr(errno, tok[1]), "scripted " + tok[1])
-        if tok[0] == "all":
-            k = len(gram)
-        else:
-            k = min(int(tok[1]), len(gram))
+            return tok
+        k = len(gram) if tok[0] == "all" else min(int(tok[1]), len(gram))
         if k == 0 and fresh:
             self.zero_fresh = True
         if 0 < k < len(gram):
@@ -108,53 +108,106 @@ class ScriptMemoer(memoing.Memoer):
             self.sent.append(self.head)
             self.head += 1
             self.remaining = None
-        return k
+        return ["n", k]
+
+
+class ScriptMemoer(memoing.Memoer):
+    """Memoer whose transport is the model itself."""
+
+    def __init__(self, model, **kwa):
+        self.model = model
+        super().__init__(txgs=LogDeque(model.queued), **kwa)
+        self.opened = True
+
+    def send(self, gram, dst, *, echoic=False):
+        tok = self.model.offer(gram, dst)
+        if tok[0] == "err":
+            raise OSError(getattr(errno, tok[1]), "scripted " + tok[1])
+        return tok[1]
+
+
+class FakeDgramSocket:
+    """What udp.Peer.send touches: sendto() follows the model; would-block is signalled the way the kernel does."""
+
+    def __init__(self, model):
+        self.model = model
+        self.n = 0
+
+    def recvfrom(self, bs):
+        raise OSError(errno.EAGAIN, "nothing to receive")
+
+    def sendto(self, data, dst):
+        tok = self.model.offer(data, dst)
+        if tok[0] == "err":
+            raise OSError(getattr(errno, tok[1]), "scripted " + tok[1])
+        if tok[1] == 0 and len(data):
+            self.n += 1
+            code = (errno.EAGAIN, errno.ENOBUFS, errno.EWOULDBLOCK, errno.ENOMEM)[self.n % 4]
+            raise OSError(code, "scripted would-block")
+        return tok[1]
+
+
+def make_udp(model, size):
+    """The real udp PeerMemoer (Peer.send code path: 0 on EAGAIN / ENOBUFS) on a scripted datagram socket."""
+    from hio.core.udp import peermemoing
+    m = peermemoing.PeerMemoer(name="c21", ha=("127.0.0.1", 0), size=size, txgs=LogDeque(model.queued))
+    m.ls = FakeDgramSocket(model)
+    m.opened = True
+    return m
 
 
 def run_case(case):
     r = Result()
-    m = ScriptMemoer(case["script"], r, size=case["size"], code=memoing.MemoDex.GramZero, curt=False)
+    model = Model(case["script"], r)
+    udp = case.get("transport") == "udp"
+    if udp:
+        m = make_udp(model, case["size"])
+        dsts = [("127.0.0.1", 7001), ("127.0.0.1", 7002), ("10.0.0.9", 7003)]
+    else:
+        m = ScriptMemoer(model, size=case["size"], code=memoing.MemoDex.GramZero, curt=False)
+        dsts = DSTS
     for op in case["ops"]:
         k = op[0]
         if r.failures:
             break
         if k == "memo":
-            m.memoit(op[1], DSTS[op[2]])
+            m.memoit(op[1], dsts[op[2]])
         elif k == "gram":
-            m.gramit(op[1], DSTS[op[2]])
+            m.gramit(op[1], dsts[op[2]])
         elif k == "svc":
             getattr(m, op[1])()
         else:
             raise ValueError(k)
     if not r.failures:
         # healthy transport from here on
-        m.script = []
+        model.script = []
         m.serviceTxMemos()
-        bound = 4 * (len(m.queued) + 2)
+        bound = 4 * (len(model.queued) + 2)
         for _ in range(bound):
             m.serviceAllTx()
         pend = m.txbs[1] is not None and len(m.txbs[0]) > 0
-        if not r.failures and (m.head < len(m.queued) or m.txgs or pend):
-            if m.remaining is not None and not m.txgs and m.head == len(m.queued) - 1:
+        if not r.failures and (model.head < len(model.queued) or m.txgs or pend):
+            if model.remaining is not None and not m.txgs and model.head == len(model.queued) - 1:
                 sig = "C21/not-drained(remainder of the last gram never offered again)"
-            elif m.remaining is not None:
+            elif model.remaining is not None:
                 sig = "C21/not-drained(remainder stuck)"
             else:
                 sig = "C21/not-drained"
             r.fail(sig, "after %d greedy service calls on a healthy transport: %d of %d queued grams done, model remainder %r, "
-                   "txgs=%d txbs=(%d bytes, %r)" % (bound, m.head, len(m.queued),
-                                                   None if m.remaining is None else len(m.remaining), len(m.txgs),
+                   "txgs=%d txbs=(%d bytes, %r)" % (bound, model.head, len(model.queued),
+                                                   None if model.remaining is None else len(model.remaining), len(m.txgs),
                                                    len(m.txbs[0]), m.txbs[1]))
-    r.nontrivial = m.zero_fresh and m.partial
-    if m.zero_fresh:
+    r.nontrivial = model.zero_fresh and model.partial
+    r.labels.append("transport:udp-peer" if udp else "transport:scripted-memoer")
+    if model.zero_fresh:
         r.labels.append("zero-on-fresh-gram")
-    if m.partial:
+    if model.partial:
         r.labels.append("partial-accept")
-    if m.dropped:
+    if model.dropped:
         r.labels.append("unreachable-drop")
-    if len(m.queued) >= 3:
+    if len(model.queued) >= 3:
         r.labels.append(">=3 grams")
-    if len({d for _g, d in m.queued}) >= 2:
+    if len({d for _g, d in model.queued}) >= 2:
         r.labels.append(">=2 destinations")
     return r
 
@@ -175,7 +228,7 @@ def _strategy():
                     st.tuples(st.just("n"), st.integers(1, 32)), st.tuples(st.just("n"), st.integers(33, 300)),
                     st.just(("all",)), st.just(("all",)),
                     st.tuples(st.just("err"), st.sampled_from(UNREACHABLE))).map(list)
-    return st.fixed_dictionaries({"size": st.sampled_from([33, 34, 40, 64, 100, 257, 65535]),
+    return st.fixed_dictionaries({"transport": st.sampled_from(["memoer", "memoer", "udp"]), "size": st.sampled_from([33, 34, 40, 64, 100, 257, 65535]),
                                   "ops": ops,
                                   "script": st.one_of(
                                       st.lists(tok, max_size=30),
